@@ -28,7 +28,7 @@ N_SUB = 2        # interpreter-level cases per run (each spawns 3 interpreters +
 
 
 def plan(tier, seed):
-    return dict(n=(64 if tier == 'quick' else 3000) + N_SUB * (1 if tier == 'quick' else 10), budget_s=85 if tier == 'quick' else 840, case_timeout=400, workers=8)
+    return dict(n=(64 if tier == 'quick' else 3000) + N_SUB * (1 if tier == 'quick' else 10), budget_s=170 if tier == 'quick' else 840, case_timeout=500, workers=8)
 
 
 def gen(tier, seed, index):
